@@ -211,6 +211,16 @@ type DB struct {
 	// order keeps insertion order so that scans are deterministic.
 	order []string
 	rm    []rmToken
+	// second: the user store of the unrelated second site (no seams)
+	second bool
+}
+
+func (d *DB) seam(site, arg string) faultKind {
+	if d.second {
+		d.w.Stats.Reach["second_site_store_used"]++
+		return faultNone
+	}
+	return d.w.seam(site, arg)
 }
 
 func newDB(w *World) *DB { return &DB{w: w, rows: map[string]*Row{}} }
@@ -294,7 +304,7 @@ func (d *DB) canon() string {
 }
 
 func (d *DB) Load(ctx context.Context, key string) (authboss.User, error) {
-	switch d.w.seam("db.Load", key) {
+	switch d.seam("db.Load", key) {
 	case faultErr:
 		return nil, errInjected
 	case faultNotFound:
@@ -309,7 +319,7 @@ func (d *DB) Load(ctx context.Context, key string) (authboss.User, error) {
 
 func (d *DB) Save(ctx context.Context, user authboss.User) error {
 	r := rowOf(user)
-	switch d.w.seam("db.Save", r.PID) {
+	switch d.seam("db.Save", r.PID) {
 	case faultErr:
 		return errInjected
 	case faultNotFound:
@@ -325,13 +335,13 @@ func (d *DB) Save(ctx context.Context, user authboss.User) error {
 }
 
 func (d *DB) New(ctx context.Context) authboss.User {
-	d.w.seam("db.New", "")
+	d.seam("db.New", "")
 	return d.wrap(&Row{})
 }
 
 func (d *DB) Create(ctx context.Context, user authboss.User) error {
 	r := rowOf(user)
-	switch d.w.seam("db.Create", r.PID) {
+	switch d.seam("db.Create", r.PID) {
 	case faultErr:
 		return errInjected
 	case faultFound:
@@ -350,7 +360,7 @@ func (d *DB) Create(ctx context.Context, user authboss.User) error {
 }
 
 func (d *DB) LoadByConfirmSelector(ctx context.Context, selector string) (authboss.ConfirmableUser, error) {
-	switch d.w.seam("db.LoadByConfirmSelector", "") {
+	switch d.seam("db.LoadByConfirmSelector", "") {
 	case faultErr:
 		return nil, errInjected
 	case faultNotFound:
@@ -369,7 +379,7 @@ func (d *DB) LoadByConfirmSelector(ctx context.Context, selector string) (authbo
 }
 
 func (d *DB) LoadByRecoverSelector(ctx context.Context, selector string) (authboss.RecoverableUser, error) {
-	switch d.w.seam("db.LoadByRecoverSelector", "") {
+	switch d.seam("db.LoadByRecoverSelector", "") {
 	case faultErr:
 		return nil, errInjected
 	case faultNotFound:
@@ -388,7 +398,7 @@ func (d *DB) LoadByRecoverSelector(ctx context.Context, selector string) (authbo
 }
 
 func (d *DB) AddRememberToken(ctx context.Context, pid, token string) error {
-	if d.w.seam("db.AddRememberToken", pid) == faultErr {
+	if d.seam("db.AddRememberToken", pid) == faultErr {
 		return errInjected
 	}
 	d.mu.Lock()
@@ -398,7 +408,7 @@ func (d *DB) AddRememberToken(ctx context.Context, pid, token string) error {
 }
 
 func (d *DB) DelRememberTokens(ctx context.Context, pid string) error {
-	if d.w.seam("db.DelRememberTokens", pid) == faultErr {
+	if d.seam("db.DelRememberTokens", pid) == faultErr {
 		return errInjected
 	}
 	d.mu.Lock()
@@ -414,7 +424,7 @@ func (d *DB) DelRememberTokens(ctx context.Context, pid string) error {
 }
 
 func (d *DB) UseRememberToken(ctx context.Context, pid, token string) error {
-	switch d.w.seam("db.UseRememberToken", pid) {
+	switch d.seam("db.UseRememberToken", pid) {
 	case faultErr:
 		return errInjected
 	case faultNotFound:
@@ -432,7 +442,7 @@ func (d *DB) UseRememberToken(ctx context.Context, pid, token string) error {
 }
 
 func (d *DB) NewFromOAuth2(ctx context.Context, provider string, details map[string]string) (authboss.OAuth2User, error) {
-	if d.w.seam("db.NewFromOAuth2", provider) == faultErr {
+	if d.seam("db.NewFromOAuth2", provider) == faultErr {
 		return nil, errInjected
 	}
 	uid := details["uid"]
@@ -448,7 +458,7 @@ func (d *DB) NewFromOAuth2(ctx context.Context, provider string, details map[str
 
 func (d *DB) SaveOAuth2(ctx context.Context, user authboss.OAuth2User) error {
 	r := rowOf(user)
-	if d.w.seam("db.SaveOAuth2", r.PID) == faultErr {
+	if d.seam("db.SaveOAuth2", r.PID) == faultErr {
 		return errInjected
 	}
 	r.PID = authboss.MakeOAuth2PID(r.OAuth2Provider, r.OAuth2UID)
